@@ -732,6 +732,93 @@ func linearize(evs []ev, cap int) ([]int, bool) {
 	return nil, false
 }
 
+// hammer: many consumer-parks / other-side-wakes handshakes from several workers; a wake-up that
+// is lost (consumer still parked long after the Push/Close that had to wake it) is a failure.
+var spinSink atomic.Uint64
+
+func spin(n int) {
+	for i := 0; i < n; i++ {
+		spinSink.Add(1)
+	}
+}
+
+func hammer(ctx *hx.Ctx, budget time.Duration) {
+	deadline := time.Now().Add(budget)
+	var total atomic.Int64
+	var failed atomic.Bool
+	var wg sync.WaitGroup
+	var mu sync.Mutex
+	workers := 4
+	for w := 0; w < workers; w++ {
+		wg.Add(1)
+		go func(w int) {
+			defer wg.Done()
+			rng := hx.NewRand(ctx.Seed*977 + uint64(w))
+			for iter := 0; !failed.Load() && time.Now().Before(deadline); iter++ {
+				total.Add(1)
+				size := uint64(1) << uint(rng.Intn(3))
+				rb, _ := ringbuffer.New(size)
+				got := make(chan bool, 1)
+				go func() {
+					_, ok := rb.Pull()
+					got <- ok
+				}()
+				// let the consumer get close to parking, with a varying delay
+				spin(rng.Intn(400))
+				if rng.Intn(6) == 0 {
+					runtime.Gosched()
+				}
+				useClose := rng.Intn(2) == 0
+				if useClose {
+					rb.Close()
+				} else {
+					rb.Push(uint64(iter + 1))
+				}
+				select {
+				case ok := <-got:
+					if ok == useClose {
+						mu.Lock()
+						ctx.Failf(-1, "hammer-wrong-result", fmt.Sprintf("size=%d close=%v", size, useClose), "Pull returned ok=%v after close=%v", ok, useClose)
+						mu.Unlock()
+						failed.Store(true)
+					}
+				case <-time.After(3 * time.Second):
+					mu.Lock()
+					what := "Push() accepted an item"
+					if useClose {
+						what = "Close() returned"
+					}
+					ctx.Failf(-1, "lost-wakeup", fmt.Sprintf("size=%d close=%v after %d handshakes", size, useClose, total.Load()), "LOST WAKE-UP: %s but the consumer is still parked in Pull() 3s later", what)
+					mu.Unlock()
+					failed.Store(true)
+					rb.Close()
+					rb.Push(uint64(1))
+				}
+			}
+		}(w)
+	}
+	wg.Wait()
+	ctx.Extra("hammer_handshakes", total.Load())
+	for i := int64(0); i < total.Load(); i += 1 {
+		_ = i
+		break
+	}
+	ctx.Kind(fmt.Sprintf("hammer handshakes=%s", magnitude(total.Load())))
+}
+
+func magnitude(n int64) string {
+	switch {
+	case n < 1000:
+		return "<1e3"
+	case n < 100000:
+		return "1e3-1e5"
+	case n < 1000000:
+		return "1e5-1e6"
+	default:
+		return ">=1e6"
+	}
+}
+
 func main() {
 	ctx := hx.Start("ring")
 	defer ctx.Finish()
@@ -780,6 +867,8 @@ func main() {
 		size := uint64(1) << uint(ctx.Rng.Intn(4))
 		randomSeq(ctx, size, ctx.Rng.Range(5, 25), true)
 	}
+	// wake-up hammer (the critical window is tens of nanoseconds wide)
+	hammer(ctx, time.Duration(ctx.Budget(3, 40))*time.Second)
 	// concurrent
 	nc := ctx.Budget(400, 20000)
 	for i := 0; i < nc; i++ {
